@@ -2,7 +2,7 @@
    in-memory trees and the canary-tree experiments, compared with the model and
    judged by the validators.  "mismatch:" = model and implementation differ;
    "viol:" = the implementation's observed behaviour breaks confinement. *)
-From Apko Require Export Base.Prelude Base.C18Path Generated.C18 Spec.ConfineSpec Model.Confine.
+From Apko Require Export Base.Prelude Base.C18Path Generated.C18 Spec.ConfineSpec Model.Confine Model.ConfineHost.
 Open Scope string_scope. Open Scope list_scope.
 
 Definition str_eqs (m : str) (obs : string) : bool := str_eqb m (la obs).
@@ -351,9 +351,115 @@ Definition check_cache (c : ccase) : list string :=
     end
   end.
 
-Inductive c18case := CPath (c : pcase) | CCanary (c : kcase) | CCache (c : ccase) | CKeyring (c : ycase) | CMember (c : mcase).
+(* ---- canary tree: dirFS on a host with a parent directory (Model/ConfineHost.v) -------
+
+   The host tree is printed before the experiment; the model runs the same
+   operations on it (overlay and kernel resolution) and must give the same
+   answers and the same changed places.  An observed escape the model also
+   produces is one of the recorded findings, named by its mechanism; one it does
+   not produce is a violation. *)
+
+Record hcase := {
+  hc_base : string; hc_roots : list string;
+  hc_tree : tnode;                   (* the directory abstractly called /O, before *)
+  hc_stop : bool;                    (* package entries: the installer gives up at the first error *)
+  hc_ops : list dop;
+  hc_answers : option (list bool);   (* direct operations: err == nil of each *)
+  hc_changed : list string           (* the snapshot diff: every place that changed *)
+}.
+
+Definition to_hop (o : dop) : hop :=
+  match o with
+  | OWriteFile n => HWriteFile (la n) | OMkdirAll n => HMkdirAll (la n) | OMkdir n => HMkdir (la n)
+  | OCreate n => HCreate (la n) | OSymlink t n => HSymlink (la t) (la n) | OLink a n => HLink (la a) (la n)
+  | ORemove n => HRemove (la n) | OChmod n => HChmod (la n) | OMknod n => HMknod (la n)
+  end.
+
+Definition tree_first_h (o : hop) : bool := match o with HCreate _ | HRemove _ => true | _ => false end.
+
+(* one row per executed operation: the operation, the model's answer, the places
+   the host call touched, and — for a tree-checked method the overlay refused —
+   the places the host call WOULD have touched *)
+Fixpoint hrun (b : str) (stop : bool) (s : xst) (ops : list hop) : list (hop * bool * list pos * list pos) :=
+  match ops with
+  | [] => []
+  | o :: r =>
+      let '(s1, ok, t) := xstep b s o in
+      let hyp := match o with
+                 | HCreate n => snd (h_write (x_host s) (hpath b n))
+                 | HRemove n => snd (h_remove (x_host s) (hpath b n))
+                 | _ => []
+                 end in
+      (o, ok, t, if ok then [] else hyp) :: (if stop && negb ok then [] else hrun b stop s1 r)
+  end.
+
+Fixpoint hfinal (b : str) (stop : bool) (s : xst) (ops : list hop) : xst :=
+  match ops with
+  | [] => s
+  | o :: r => let '(s1, ok, _) := xstep b s o in if stop && negb ok then s1 else hfinal b stop s1 r
+  end.
+
+Definition pos_str (q : pos) : str := render true q.
+
+(* the call's own path, filepath.Join(base, name), already leaves the base *)
+Definition lex_outside (b : str) (o : hop) : bool :=
+  let n := match o with
+           | HWriteFile n | HMkdirAll n | HMkdir n | HCreate n | HRemove n | HChmod n | HMknod n => n
+           | HSymlink _ n => n | HLink _ n => n end in
+  negb (cprefixb (cc b) (hpath b n)).
+
+Definition mech (b : str) (o : hop) : string :=
+  if lex_outside b o then "viol:dirfs-unchecked-path"
+  else if tree_first_h o then "viol:overlay-resolves-links-unlike-kernel"
+  else "viol:dirfs-follows-host-symlink".
+
+Definition bool_list_eqb (a b : list bool) : bool :=
+  Nat.eqb (List.length a) (List.length b) && forallb (fun p => Bool.eqb (fst p) (snd p)) (combine a b).
+
+Definition absent (t : node) (q : pos) : bool := match node_at t q with None => true | Some _ => false end.
+
+Definition check_host (c : hcase) : list string :=
+  let b := la (hc_base c) in
+  let roots := map la (hc_roots c) in
+  let h0 := NDir [(la "O", to_node (hc_tree c))] in
+  let ops := map to_hop (hc_ops c) in
+  let s0 := xinit b h0 in
+  let rows := hrun b (hc_stop c) s0 ops in
+  let hf := x_host (hfinal b (hc_stop c) s0 ops) in
+  (* created and removed again: not a change *)
+  let net (q : pos) := negb (absent h0 q && absent hf q) in
+  let touched := flat_map (fun r => map (fun q => (fst (fst (fst r)), q)) (filter net (snd (fst r)))) rows in
+  let pred_out := filter (fun oq => outside roots (pos_str (snd oq))) touched in
+  let obs := map (fun x => clean (la x)) (hc_changed c) in
+  let obs_out := escapes roots obs in
+  tag_if (match hc_answers c with
+          | Some l => negb (bool_list_eqb l (map (fun r => snd (fst (fst r))) rows))
+          | None => false end) "mismatch:dirfs-op-answer" ++
+  dedup (map (fun x =>
+                match filter (fun oq => str_eqb (pos_str (snd oq)) x) pred_out with
+                | oq :: _ => mech b (fst oq)
+                | [] =>
+                    if existsb (fun r => existsb (fun q => str_eqb (pos_str q) x) (snd r)) rows
+                    then "viol:tree-checked-name-escapes"
+                    else "viol:escape-unexplained"
+                end) obs_out) ++
+  tag_if (existsb (fun oq => negb (existsb (str_eqb (pos_str (snd oq))) obs_out)) pred_out)
+    "mismatch:host-model-escape-not-observed" ++
+  (* direct operations: what changed below the base is the model's too *)
+  match hc_answers c with
+  | Some _ =>
+      let pred_in := filter (fun x => underb b x) (map (fun oq => pos_str (snd oq)) touched) in
+      let obs_in := filter (fun x => underb b x) obs in
+      tag_if (negb (forallb (fun x => existsb (str_eqb x) obs_in) pred_in &&
+                    forallb (fun x => existsb (str_eqb x) pred_in) obs_in))
+        "mismatch:host-model-inside-differs"
+  | None => []
+  end.
+
+Inductive c18case := CPath (c : pcase) | CCanary (c : kcase) | CCache (c : ccase) | CKeyring (c : ycase) | CMember (c : mcase)
+                   | CHost (c : hcase).
 Definition check_c18 (c : c18case) : list string :=
   match c with
   | CPath p => check_path p | CCanary k => check_canary k | CCache q => check_cache q
-  | CKeyring y => check_keyring y | CMember m => check_member m
+  | CKeyring y => check_keyring y | CMember m => check_member m | CHost h => check_host h
   end.
